@@ -290,4 +290,45 @@ def bpStatic (v : Variant) (r rho0 : List α) (sp : List (Species α))
   let I : BPIn α := { variant := v, r, ldu, b0, cden := [], e_kin := lit 0, sp }
   finish (loop I (1e-3 : α) 500 phi0 0 none)
 
+/-! ### the over-relaxed e-beam variant (`boltzmann_radial_potential_linear_density_ebeam_sor`) -/
+
+/-- `np.dot(a, b)` (sequential order; BLAS may sum in another order: compared with a tolerance) -/
+def dotL (a b : List α) : α := sumL (List.zipWith (· * ·) a b)
+/-- `np.linalg.norm(a)` -/
+def normL (a : List α) : α := sqrt (sumL (a.map fun v => v * v))
+
+/-- every fifth pass the Newton update is replaced by the extrapolation
+`φ = φ₋₁ + μ (φ − φ₋₁)`, `μ = 1 − ⟨r_k, Δr_k⟩/⟨Δr_k, Δr_k⟩` with `r_k = φ − φ₋₁`, `Δr_k = r_k − (φ₋₁ − φ₋₂)` -/
+def sorExtrapolate (phi m1 m2 : List α) : List α :=
+  let rk := List.zipWith (· - ·) phi m1
+  let rk1 := List.zipWith (· - ·) m1 m2
+  let drk := List.zipWith (· - ·) rk rk1
+  let mu := lit 1 - dotL rk drk / dotL drk drk
+  List.zipWith (fun a b => a + mu * b) m1 rk
+
+/-- `for k in range(1, 500)`: Newton update `step`; over-relaxation when `k % 5 == 0`; otherwise leave when both the
+relative change of the potential and the relative residual are below `1e-10` -/
+def sorLoop (I : BPIn α) (f0n : α) : Nat → Nat → List α → List α → List α → Option (StepOut α) →
+    List α × Option (StepOut α) × Nat
+  | 0, k, phi, _, _, last => (phi, last, k - 1)
+  | fuel + 1, k, phi, m1, m2, _ =>
+    let o := step I phi
+    let f := targetFun none I.ldu phi o.b
+    if k % 5 = 0 then
+      let phi' := sorExtrapolate o.phi m1 m2
+      sorLoop I f0n fuel (k + 1) phi' phi' m1 (some o)
+    else if normL (List.zipWith (· - ·) o.phi m1) / normL o.phi < (1e-10 : α) ∧ normL f / f0n < (1e-10 : α) then
+      (o.phi, some o, k)
+    else sorLoop I f0n fuel (k + 1) o.phi o.phi m1 (some o)
+
+/-- `boltzmann_radial_potential_linear_density_ebeam_sor(r, current, r_e, e_kin, nl, kT, q, first_guess, ldu)` -/
+def bpEbeamSor (r : List α) (current r_e e_kin : α) (sp : List (Species α))
+    (firstGuess : Option (List α)) (ldu : Option (List (α × α × α))) : BPOut α :=
+  let ldu := ldu.getD (fdNonuniform r)
+  let phi0 := firstGuess.getD (firstGuessEbeam r current r_e e_kin sp)
+  let I : BPIn α := { variant := .ebeam, r, ldu, b0 := [], cden := beamDensity r current r_e, e_kin, sp }
+  let f0 := targetFun none ldu phi0 (step I phi0).b
+  let z := phi0.map fun _ => lit 0
+  finish (sorLoop I (normL f0) 499 1 phi0 z z none)
+
 end Radial
